@@ -137,8 +137,15 @@ func (it *c11Interp) eval(fr *c11Frame, st *c11St, e ast.Expr) []c11SV {
 		return one(&c11V{k: "funclit", node: x, name: fr.envP})
 	case *ast.SelectorExpr:
 		if sel := info.Selections[x]; sel != nil {
+			if sel.Kind() == types.MethodVal {
+				if m, ok := sel.Obj().(*types.Func); ok {
+					return it.evalN(fr, st, []ast.Expr{x.X}, func(s *c11St, vs []*c11V) *c11V {
+						return &c11V{k: "func", fn: m, xs: []*c11V{vs[0]}} // method value: the method with its receiver
+					})
+				}
+			}
 			if sel.Kind() != types.FieldVal {
-				return one(it.unk(st, "method value"))
+				return one(it.unk(st, "method expression"))
 			}
 			var out []c11SV
 			for _, b := range it.eval(fr, st, x.X) {
@@ -183,7 +190,12 @@ func (it *c11Interp) eval(fr *c11Frame, st *c11St, e ast.Expr) []c11SV {
 			return &c11V{k: "slice", xs: []*c11V{vs[0], lo, hi}}
 		})
 	case *ast.StarExpr:
-		return it.evalN(fr, st, []ast.Expr{x.X}, func(s *c11St, vs []*c11V) *c11V { return c11Deref(vs[0]) })
+		return it.evalN(fr, st, []ast.Expr{x.X}, func(s *c11St, vs []*c11V) *c11V {
+			if v, ok := it.readRef(fr, s, vs[0]); ok {
+				return v
+			}
+			return c11Deref(vs[0])
+		})
 	case *ast.UnaryExpr:
 		switch x.Op {
 		case token.AND:
@@ -192,8 +204,10 @@ func (it *c11Interp) eval(fr *c11Frame, st *c11St, e ast.Expr) []c11SV {
 					if cur, ok := st.env[v]; ok && cur.k == "struct" {
 						return one(c11Addr(cur))
 					}
-					st.note("address of local variable " + v.Name() + " taken")
-					return one(it.unk(st, "address of local"))
+					if v.Pkg() != nil && v.Parent() == v.Pkg().Scope() {
+						return one(c11Addr(it.evalIdent(fr, st, id)))
+					}
+					return one(c11Ref(v, fr.envP))
 				}
 			}
 			return it.evalN(fr, st, []ast.Expr{x.X}, func(s *c11St, vs []*c11V) *c11V { return c11Addr(vs[0]) })
@@ -489,15 +503,20 @@ func (it *c11Interp) evalCall(fr *c11Frame, st *c11St, call *ast.CallExpr) []c11
 	for _, r := range it.evalN(fr, st, es, func(s *c11St, vs []*c11V) *c11V { return &c11V{k: "lit", xs: vs} }) {
 		vs := r.v.xs
 		fn := static
+		boundRecv := false
 		if fn == nil && len(vs) > 0 && vs[0].k == "func" && vs[0].fn.Type().(*types.Signature).Recv() == nil {
 			// a named function held in a variable, parameter or struct field: the call is the call of that function
 			fn, vs = vs[0].fn, vs[1:]
+		} else if fn == nil && len(vs) > 0 && vs[0].k == "func" && len(vs[0].xs) == 1 {
+			// a method value: the call is the method call on the receiver it was taken from
+			fn, vs = vs[0].fn, append([]*c11V{vs[0].xs[0]}, vs[1:]...)
+			boundRecv = true
 		}
 		if fn != nil {
 			if fi := it.funcs[fn]; fi != nil && fi.Decl.Body != nil && it.inline(fn) && fr.depth < 4 && !it.onStack(fr, fn) {
 				var recv *c11V
 				args := vs
-				if recvE != nil {
+				if recvE != nil || boundRecv {
 					recv, args = vs[0], vs[1:]
 				}
 				for _, o := range it.callInline(fr, r.st, fi, recv, args, call) {
@@ -515,7 +534,7 @@ func (it *c11Interp) evalCall(fr *c11Frame, st *c11St, call *ast.CallExpr) []c11
 			for i := range vs {
 				vs[i] = it.copyStruct(r.st, vs[i])
 			}
-			v := &c11V{k: "call", fn: fn, xs: vs, recv: recvE != nil}
+			v := &c11V{k: "call", fn: fn, xs: vs, recv: recvE != nil || boundRecv}
 			r.st.ev = append(r.st.ev, c11Ev{kind: "call", call: v, node: call, nas: len(r.st.as), fr: fr.path})
 			out = append(out, c11SV{st: r.st, v: v})
 			continue
